@@ -695,7 +695,8 @@ def _iter_unused_names(
     # immediately be deleted.
     names_in_scope = {name.id for name in core.walk(scope, ast.Name)}
     for name in names_in_scope - preserve:
-        if not any(core.walk(scope, ast.Name(id=name, ctx=(ast.Load)))):
+        # A name that is deleted has to be bound when the del statement runs
+        if not any(core.walk(scope, ast.Name(id=name, ctx=(ast.Load, ast.Del)))):
             for node in core.walk(scope, ast.Name(id=name)):
                 yield node
 
